@@ -145,6 +145,9 @@ class C01(EvalProp):
             'documents (float64 and json.Number); a case is non-trivial when retrieval succeeds with >= 2 values, or '
             'succeeds on a path of >= 3 steps')
 
+    def quick_n(self):
+        return 8000
+
     def cases(self, ctx, g, n):
         cs = mk_eval_cases(g, n, 'c', funcs=0.3, acc=0.0, jnum=0.2)
         # tree dumps for a subset: parser model vs the real parser, node by node
@@ -267,7 +270,16 @@ class C04(EvalProp):
         return 80000
 
     def cases(self, ctx, g, n):
-        return mk_eval_cases(g, n, 'c', funcs=0.15, acc=0.3, jnum=0.2, filter_heavy=0.85)
+        cs = mk_eval_cases(g, n, 'c', funcs=0.15, acc=0.3, jnum=0.2, filter_heavy=0.85)
+        # a second and third call of the same parsed function on other documents: a result buffer that aliases
+        # an earlier caller's array is overwritten by the later calls (the runner re-reads every document at the end)
+        for c in cs[::2]:
+            c.docs = c.docs + [mutate_doc(g.r, c.docs[0]), g.doc(2, False, 0)]
+        for i in range(n // 8):
+            doc = g.doc(3, False, 0)
+            path = g.r.choice([b'$[*]', b'$.*', b'$..*', b'$..[*]', b'$.*.*', b'$[*][*]', b'$..a[*]', b'$.list[*]', b'$[0:]', b'$..[0:2]'])
+            cs.append(Case('w%d' % i, path, [doc, g.doc(2, False, 0), doc], meta={'nsteps': 2}))
+        return cs
 
     def project(self, o, c):
         # the model's write log (W) is the model-side counterpart of a changed document (M)
@@ -587,7 +599,7 @@ class C05(Prop):
         init_globals()
         g = gens.G(ctx.seed * 31 + 5 + seed_offset)
         r = g.r
-        n = ctx.n(600, 12000) * budget_scale
+        n = ctx.n(1500, 12000) * budget_scale
         base = load_corpus(self.id, ctx.root) if seed_offset == 0 else []
         for i in range(n):
             c = mk_eval_cases(g, 1, 'h%d_' % i, funcs=0.3, acc=0.1, jnum=0.2, filter_heavy=0.7, families=0.4)[0]
@@ -717,7 +729,7 @@ class C06(Prop):
         import json
         g = gens.G(ctx.seed * 13 + 6 + seed_offset)
         r = g.r
-        n = ctx.n(40, 800) * budget_scale
+        n = ctx.n(60, 800) * budget_scale
         raws = []
         for i in range(n):
             docs = [g.filter_doc(False, 0) for _ in range(r.randint(1, 3))]
@@ -781,7 +793,7 @@ class C07(Prop):
     def run(self, ctx, res, budget_scale=1, seed_offset=0):
         g = gens.G(ctx.seed * 17 + 7 + seed_offset)
         r = g.r
-        n = ctx.n(500, 10000) * budget_scale
+        n = ctx.n(1200, 10000) * budget_scale
         cases = load_corpus(self.id, ctx.root) if seed_offset == 0 else []
         templates = [b'$.*', b'$..*', b'$[*]', b'$..[*]', b'$[?(@)]', b'$..[?(@)]', b'$.*.*', b'$..a', b"$..['a','b']",
                      b'$[?(@.a)]', b'$..[?(@.a || @.b)]', b'$.*[*]', b'$..*.*', b"$['b','a',*]", b'$[*,*]']
@@ -931,7 +943,7 @@ class C08(Prop):
         g.allow_root = False
         g.allow_agg = False
         r = g.r
-        n = ctx.n(1500, 30000) * budget_scale
+        n = ctx.n(4000, 30000) * budget_scale
         items = []
         for i in range(n):
             doc = g.filter_doc(False, 0) if r.random() < 0.4 else g.doc(3, r.random() < 0.15, 0)
@@ -1329,7 +1341,7 @@ class C12(Prop):
 
     def run(self, ctx, res, budget_scale=1, seed_offset=0):
         g = gens.G(ctx.seed * 37 + 12 + seed_offset)
-        n = ctx.n(3000, 60000) * budget_scale
+        n = ctx.n(6000, 60000) * budget_scale
         plain = mk_eval_cases(g, n, 'c', funcs=0.5, acc=0.0, jnum=0.15, filter_heavy=0.5)
         plain += load_corpus(self.id, ctx.root) if seed_offset == 0 else []
         for c in plain:
@@ -1415,7 +1427,7 @@ class C13(Prop):
     def run(self, ctx, res, budget_scale=1, seed_offset=0):
         g = gens.G(ctx.seed * 41 + 13 + seed_offset)
         r = g.r
-        n = ctx.n(1500, 30000) * budget_scale
+        n = ctx.n(6000, 30000) * budget_scale
         cases = load_corpus(self.id, ctx.root) if seed_offset == 0 else []
         for i in range(n):
             doc = g.filter_doc(False, 0) if r.random() < 0.4 else g.doc(3, False, 0)
@@ -1491,7 +1503,7 @@ class C14(Prop):
     def run(self, ctx, res, budget_scale=1, seed_offset=0):
         g = gens.G(ctx.seed * 43 + 14 + seed_offset)
         r = g.r
-        n = ctx.n(3000, 60000) * budget_scale
+        n = ctx.n(6000, 60000) * budget_scale
         cases = load_corpus(self.id, ctx.root) if seed_offset == 0 else []
         pre_of = {}
         pres = []
@@ -1610,7 +1622,7 @@ class C15(Prop):
     def run(self, ctx, res, budget_scale=1, seed_offset=0):
         g = gens.G(ctx.seed * 47 + 15 + seed_offset)
         r = g.r
-        n = ctx.n(4000, 80000) * budget_scale
+        n = ctx.n(9000, 80000) * budget_scale
         cases = load_corpus(self.id, ctx.root) if seed_offset == 0 else []
         expect = {}
         cases += mk_eval_cases(g, n * 2 // 3, 'e', funcs=0.2, acc=0.1, jnum=0.15, filter_heavy=0.3)
@@ -1804,6 +1816,17 @@ class C18(Prop):
                 grp.append(c)
                 cases.append(c)
             groups.append(grp)
+        # raw bracket-name bodies in both quote styles (control characters, escapes, blanks, non-ASCII)
+        atoms = [b'a', b'b', b'\t', b'\x01', b'\x1f', b'\\n', b'\\t', b'\\u0041', b'\\\\', b'\\/', b'\xc3\xa9', b' ', b'.', b'*',
+                 b'\\b', b'\x7f', b'\\x', b'\\u12', b'\\ud83d\\ude00', b'$', b'@']
+        for i in range(n // 4):
+            body = b''.join(r.choice(atoms) for _ in range(r.randint(1, 4)))
+            doc = ('o', [(b'a', ('n', 1.0)), (b'a\tb', ('n', 2.0)), (b'A', ('n', 3.0)), (b'\n', ('n', 4.0)), (b'a b', ('n', 5.0)),
+                         (b'\xc3\xa9', ('n', 6.0)), (b'\\', ('n', 7.0)), (b'/', ('n', 8.0)), (b'\t', ('n', 9.0)), (b'\x01', ('n', 10.0))])
+            grp = [Case('q%d_s' % i, b"$['" + body + b"']", [doc], meta={'nsteps': 2}),
+                   Case('q%d_d' % i, b'$["' + body + b'"]', [doc], meta={'nsteps': 2})]
+            cases += grp
+            groups.append(grp)
         go, mo = both_sides(cases)
         by_id = {c.id: (g_, m) for c, g_, m in zip(cases, go, mo)}
         for grp in groups:
@@ -1874,7 +1897,7 @@ class C19(Prop):
         init_globals()
         g = gens.G(ctx.seed * 61 + 19 + seed_offset)
         r = g.r
-        n = ctx.n(500, 10000) * budget_scale
+        n = ctx.n(1200, 10000) * budget_scale
         doc = ('o', [(b'a', ('n', 1.0)), (b'b', ('a', [('n', 1.0), ('n', 2.0)])), (b'c', ('o', [(b'a', ('n', 3.0))]))])
         doc2 = ('a', [('o', [(b'a', ('n', 1.0)), (b'b', ('n', 5.0))]), ('o', [(b'a', ('n', 2.0))])])
         hists = []
